@@ -164,6 +164,7 @@ func relName(f *ssa.Function) string {
 func ConfigureEmittedWorld(w *World) {
 	w.CheckOverflow = false
 	w.DynamicPolicy = func(e *FuncEnc, in ssa.Instruction, name string) CallKind {
+		name = strings.ReplaceAll(name, "emitted.", "")
 		switch {
 		case strings.HasPrefix(name, "func:CorsHandlerFunc"), strings.HasPrefix(name, "func:func(h http.Handler) http.Handler"),
 			strings.HasPrefix(name, "func:func(http.Handler) http.Handler"), strings.HasPrefix(name, "func:MiddlewareFunc"):
